@@ -705,8 +705,10 @@ mod serde {
         where
             A: SeqAccess<'de>,
         {
+            // The size hint comes from the input (a length prefix, for instance): use it
+            // to pre-allocate, but never trust it beyond a small bound.
             let mut store: Store<I, P, H> = if let Some(size) = seq.size_hint() {
-                Store::with_capacity_and_default_hasher(size)
+                Store::with_capacity_and_default_hasher(size.min(4096))
             } else {
                 Store::with_default_hasher()
             };
